@@ -308,7 +308,10 @@ func runOp(conn *kafka.Conn, f *fakeConn, o opSpec) (cls string) {
 	sent := len(f.log)
 	wasClosed := f.closed
 	s, err := kafka.VerifC11Op(conn, o.name, o.ver, o.off)
-	// sanity: the request that went out is the one the case names
+	// sanity: the request that went out is the one the case names (the Conn may
+	// not have called Read at all when unread bytes of an earlier response were
+	// still buffered, so look at the request buffer now)
+	f.pump()
 	if !wasClosed {
 		if len(f.log) != sent+1 {
 			warn("%s v%d sent %d requests", o.name, o.ver, len(f.log)-sent)
@@ -409,7 +412,7 @@ func parseI(s string) (int64, error) {
 		return 0, err
 	}
 	if neg {
-		return -int64(u - 1) - 1, nil
+		return -int64(u-1) - 1, nil
 	}
 	return int64(u), nil
 }
@@ -495,6 +498,7 @@ func replay() {
 		c, err := parseCase(rest)
 		if err != nil {
 			fmt.Fprintf(os.Stderr, "c11: case %s: %v\n", id, err)
+			out.Flush()
 			os.Exit(2)
 		}
 		res := strings.Join(runCase(c.topic, c.ops, c.frames, c.cut), " ")
@@ -522,8 +526,8 @@ type enc struct {
 	marks []int
 }
 
-func (e *enc) mark()      { e.marks = append(e.marks, len(e.b)) }
-func (e *enc) i8(v int8)  { e.mark(); e.b = append(e.b, byte(v)) }
+func (e *enc) mark()     { e.marks = append(e.marks, len(e.b)) }
+func (e *enc) i8(v int8) { e.mark(); e.b = append(e.b, byte(v)) }
 func (e *enc) i16(v int16) {
 	e.mark()
 	e.b = append(e.b, byte(v>>8), byte(v))
@@ -669,8 +673,14 @@ func rnameNot(r *rand.Rand, not string) string {
 	}
 }
 
+// length of an array: 0..3 elements (minArr = 1 keeps the arrays of the
+// truncation cases non-empty so that every field of the grammar is cut through)
+var minArr = 0
+
+func rlen(r *rand.Rand) int { return minArr + r.Intn(4-minArr) }
+
 func ri32s(e *enc, r *rand.Rand, pool []int32) {
-	n := r.Intn(4)
+	n := rlen(r)
 	e.arr(n)
 	for i := 0; i < n; i++ {
 		if len(pool) > 0 && r.Intn(3) != 0 {
@@ -683,13 +693,13 @@ func ri32s(e *enc, r *rand.Rand, pool []int32) {
 
 // topics x partitions shape with an optional target partition
 func shape2(r *rand.Rand, need bool) (np []int, ti, pi int) {
-	nt := r.Intn(4)
+	nt := rlen(r)
 	if need && nt == 0 {
 		nt = 1 + r.Intn(3)
 	}
 	np = make([]int, nt)
 	for i := range np {
-		np[i] = r.Intn(4)
+		np[i] = rlen(r)
 	}
 	ti, pi = -1, -1
 	if need {
@@ -722,7 +732,7 @@ func genMsgSet(r *rand.Rand, kind int, base int64) []byte {
 		var recs enc
 		for i := 0; i < n; i++ {
 			var b enc
-			b.i8(0)                    // attributes
+			b.i8(0)                     // attributes
 			b.varint(int64(r.Intn(50))) // timestamp delta
 			b.varint(int64(i))          // offset delta
 			if r.Intn(3) == 0 {
@@ -742,19 +752,19 @@ func genMsgSet(r *rand.Rand, kind int, base int64) []byte {
 			recs.b = append(recs.b, b.b...)
 		}
 		ts := r.Int63n(1 << 41)
-		e.i64(base)                     // base offset
+		e.i64(base)                    // base offset
 		e.i32(int32(49 + len(recs.b))) // batch length
-		e.i32(ri32(r))                  // partition leader epoch
-		e.i8(2)                         // magic
-		e.i32(int32(r.Uint32()))        // crc (not verified by the legacy reader)
-		e.i16(0)                        // attributes
-		e.i32(int32(n - 1))             // last offset delta
-		e.i64(ts)                       // first timestamp
-		e.i64(ts + 50)                  // max timestamp
-		e.i64(-1)                       // producer id
-		e.i16(-1)                       // producer epoch
-		e.i32(-1)                       // base sequence
-		e.i32(int32(n))                 // record count
+		e.i32(ri32(r))                 // partition leader epoch
+		e.i8(2)                        // magic
+		e.i32(int32(r.Uint32()))       // crc (not verified by the legacy reader)
+		e.i16(0)                       // attributes
+		e.i32(int32(n - 1))            // last offset delta
+		e.i64(ts)                      // first timestamp
+		e.i64(ts + 50)                 // max timestamp
+		e.i64(-1)                      // producer id
+		e.i16(-1)                      // producer epoch
+		e.i32(-1)                      // base sequence
+		e.i32(int32(n))                // record count
 		e.b = append(e.b, recs.b...)
 	case msV1:
 		n := 1 + r.Intn(2)
@@ -826,7 +836,7 @@ func genBody(r *rand.Rand, name string, ver int, st site, fo fetchOpt) built {
 		if v == 6 {
 			e.i32(ri32(r)) // throttle
 		}
-		nb := r.Intn(4)
+		nb := rlen(r)
 		ids := make([]int32, nb)
 		e.arr(nb)
 		for i := range ids {
@@ -845,7 +855,7 @@ func genBody(r *rand.Rand, name string, ver int, st site, fo fetchOpt) built {
 			e.i32(ri32(r))
 		}
 		// topics: names, which one is the Conn's topic, where the error goes
-		nt := r.Intn(4)
+		nt := rlen(r)
 		names := make([]string, nt)
 		for i := range names {
 			names[i] = rnameNot(r, ownTopic)
@@ -857,14 +867,14 @@ func genBody(r *rand.Rand, name string, ver int, st site, fo fetchOpt) built {
 		}
 		np := make([]int, nt)
 		for i := range np {
-			np[i] = r.Intn(4)
+			np[i] = rlen(r)
 		}
 		et, ep := -1, -1 // topic whose error is set / partition of it
 		switch st.field {
 		case "topic-own":
 			if own < 0 {
 				if nt == 0 {
-					nt, names, np = 1, []string{ownTopic}, []int{r.Intn(4)}
+					nt, names, np = 1, []string{ownTopic}, []int{rlen(r)}
 					own = 0
 				} else {
 					own = r.Intn(nt)
@@ -881,7 +891,7 @@ func genBody(r *rand.Rand, name string, ver int, st site, fo fetchOpt) built {
 			}
 			if len(others) == 0 {
 				names = append(names, rnameNot(r, ownTopic))
-				np = append(np, r.Intn(4))
+				np = append(np, rlen(r))
 				others = append(others, nt)
 				nt++
 			}
@@ -970,7 +980,7 @@ func genBody(r *rand.Rand, name string, ver int, st site, fo fetchOpt) built {
 			if r.Intn(4) == 0 {
 				e.arr(-1) // null: no aborted transactions
 			} else {
-				n := r.Intn(4)
+				n := rlen(r)
 				e.arr(n)
 				for i := 0; i < n; i++ {
 					e.i64(ri64(r))
@@ -1019,7 +1029,7 @@ func genBody(r *rand.Rand, name string, ver int, st site, fo fetchOpt) built {
 		e.str(rstr(r))
 		e.str(rstr(r))
 		e.str(rstr(r))
-		n := r.Intn(4)
+		n := rlen(r)
 		e.arr(n)
 		for i := 0; i < n; i++ {
 			e.str(rstr(r))
@@ -1052,7 +1062,7 @@ func genBody(r *rand.Rand, name string, ver int, st site, fo fetchOpt) built {
 	case "listgroups":
 		e.i32(ri32(r))
 		e.i16(top)
-		n := r.Intn(4)
+		n := rlen(r)
 		e.arr(n)
 		for i := 0; i < n; i++ {
 			e.str(rstr(r))
@@ -1063,7 +1073,7 @@ func genBody(r *rand.Rand, name string, ver int, st site, fo fetchOpt) built {
 		if (name == "createtopics" && ver >= 2) || (name == "deletetopics" && ver >= 1) {
 			e.i32(ri32(r)) // throttle
 		}
-		n := r.Intn(4)
+		n := rlen(r)
 		t := -1
 		if st.field == "topic" {
 			if n == 0 {
@@ -1082,7 +1092,7 @@ func genBody(r *rand.Rand, name string, ver int, st site, fo fetchOpt) built {
 
 	case "apiversions":
 		e.i16(top)
-		n := r.Intn(4)
+		n := rlen(r)
 		e.arr(n)
 		for i := 0; i < n; i++ {
 			e.i16(int16(ri32(r)))
@@ -1092,7 +1102,7 @@ func genBody(r *rand.Rand, name string, ver int, st site, fo fetchOpt) built {
 
 	case "saslhandshake":
 		e.i16(top)
-		n := r.Intn(4)
+		n := rlen(r)
 		e.arr(n)
 		for i := 0; i < n; i++ {
 			e.str(rstr(r))
@@ -1197,7 +1207,9 @@ func genAll(seed int64, tier string) {
 			variants = append(variants, variant{site{}, fetchOpt{msV1, false}})
 		}
 		for _, v := range variants {
+			minArr = 1
 			b := genBody(r, a.name, a.ver, v.st, v.fo)
+			minArr = 0
 			fr := frame(2, b.body)
 			n := len(fr)
 			var ks []int
